@@ -997,3 +997,31 @@ func edgeDominates(b *ssa.BasicBlock, i int, target *ssa.BasicBlock) bool {
 	// both successors the same block: the edge says nothing
 	return len(b.Succs) < 2 || b.Succs[0] != b.Succs[1]
 }
+
+// loopsByHeader: natural loops merged per header (a loop with several `continue` statements has several back edges).
+func loopsByHeader(fn *ssa.Function) map[*ssa.BasicBlock]map[*ssa.BasicBlock]bool {
+	out := map[*ssa.BasicBlock]map[*ssa.BasicBlock]bool{}
+	for _, u := range fn.Blocks {
+		for _, h := range u.Succs {
+			if !h.Dominates(u) {
+				continue
+			}
+			body := out[h]
+			if body == nil {
+				body = map[*ssa.BasicBlock]bool{h: true}
+				out[h] = body
+			}
+			work := []*ssa.BasicBlock{u}
+			for len(work) > 0 {
+				x := work[len(work)-1]
+				work = work[:len(work)-1]
+				if body[x] {
+					continue
+				}
+				body[x] = true
+				work = append(work, x.Preds...)
+			}
+		}
+	}
+	return out
+}
